@@ -3,10 +3,14 @@ import datetime
 
 from harness.common import EX, TIMES, KIND_NAMES, add_record, formal, is_time_attr, kind_type
 
-FLOATS = [0.1, 1e300, -0.0, 1.2345678901234567, 5.0]
+FLOATS = [0.1, 1e300, -0.0, 1.2345678901234567, 5.0, 1.0, 0.0]
 ATTR_NAMES = ["ex:k", "prov:type", "prov:label", "prov:value", "prov:location", "prov:role", "k"]  # "k": name in the default namespace
 VALUE_KINDS = ["str", "int", "bool", "float", "datetime", "qname", "qname_other_prefix", "uri", "lang_literal",
-               "foreign_literal", "typed_int_literal", "multi_str_int", "multi_qname", "empty_str", "big_text"]
+               "foreign_literal", "typed_int_literal", "multi_str_int", "multi_qname", "empty_str", "big_text",
+               "hostile_str", "hostile_foreign_literal", "hostile_lang_literal", "equal_values_of_different_kinds"]
+# texts whose handling no branch of prov depends on (so the solver has no reason to pick them): catalogue
+HOSTILE = ["  lead", "trail  ", "\n x \n", "a  b", "\t", " ", "prov:x", "None", "line1\n  line2\n\nline4", 'q"uo"te\'s', "back\\slash\\",
+           "<b>&amp;</b>", "%41%20", "é中\U0001f600"]
 NS_MODES = ["plain", "doc_default", "bundle_default", "clash_prefix", "bundle_own_prefix"]
 
 
@@ -23,10 +27,22 @@ def shadow_guard(ctx, d):
     """Region of the open finding <property>.bundle_shadows_parent_prefix: a bundle binds a prefix that its document
     binds to another URI, while names the bundle resolved through the document are printed with that prefix."""
     fid = "%s.bundle_shadows_parent_prefix" % ctx.params.get("prop", "C01")
+    from prov.identifier import QualifiedName
+
     for b in d.bundles:
+        names = [b.identifier]  # the bundle's own identifier is a name of the document scope
+        for r in b.get_records():
+            if r.identifier is not None:
+                names.append(r.identifier)
+            for a, v in r.attributes:
+                names.append(a)
+                if isinstance(v, QualifiedName):
+                    names.append(v)
         for bn in b.namespaces:
-            for dn in d.namespaces:
-                ctx.finding(fid, bn.prefix == dn.prefix and bn.uri != dn.uri)
+            for n in names:
+                # the bundle binds prefix p to one URI while a name it holds (resolved through the document, or
+                # through a foreign Namespace object) is printed with the same prefix p but lives in another namespace
+                ctx.finding(fid, n.namespace.prefix == bn.prefix and n.namespace.uri != bn.uri)
 
 
 def make_value(ctx, d, vk, strlen=2, text_kind="any"):
@@ -70,6 +86,16 @@ def make_value(ctx, d, vk, strlen=2, text_kind="any"):
         return [""]
     if name == "big_text":
         return ['a "quoted" line\nsecond line with \\ backslash, <tag> & é中\U0001f600 end']
+    if name == "hostile_str":
+        return [HOSTILE[ctx.choose("hs", len(HOSTILE))]]
+    if name == "hostile_foreign_literal":
+        return [Literal(HOSTILE[ctx.choose("hs", len(HOSTILE))], QualifiedName(Namespace("ex", EX), "dt"))]
+    if name == "hostile_lang_literal":
+        return [Literal(HOSTILE[ctx.choose("hs", len(HOSTILE))], None, "en")]
+    if name == "equal_values_of_different_kinds":
+        # values that compare equal in Python but differ in kind, in DIFFERENT attributes of one record
+        return [("ex:t", True), ("ex:one", 1), ("ex:onef", 1.0), ("ex:f", False), ("ex:zero", 0), ("ex:zerof", 0.0), ("ex:mz", -0.0),
+                ("ex:t2", True), ("ex:onef2", 1.0)]
     raise ValueError(name)
 
 
@@ -109,7 +135,7 @@ def values_doc(ctx, attr_idx, vk, ns_mode, in_bundle, strlen=2, text_kind="any")
     if attr == "k" and mode not in ("doc_default", "bundle_default"):
         attr = "ex:k"  # an unprefixed attribute name needs a default namespace
     ident = "e1" if mode in ("doc_default", "bundle_default") else "ex:e1"
-    target.entity(ident, [(attr, v) for v in vals])
+    target.entity(ident, [(v if isinstance(v, tuple) else (attr, v)) for v in vals])
     shadow_guard(ctx, d)
     return d
 
